@@ -99,6 +99,13 @@ def gen_graph(g, nmax):
 def generate(prop, seed, tier):
     g = Stream(seed, 'gen')
     n, edges = gen_graph(g, 8 if tier == 'quick' else 9)
+    g2 = Stream(seed, 'gen-big')
+    if g2.random() < 0.04:
+        # 10- and 11-vertex graphs on which min_fill is not optimal and minor-min-width is not tight: quickbb has to
+        # complete an order that improves on the heuristic (its leaf bookkeeping runs), relabelled at random
+        n, edges = hard_graph(g2, 11)
+        while n < 10:
+            n, edges = hard_graph(g2, 11)
     pres = []
     for _ in range(g.randrange(3, 6)):
         pres.append({'naming': g.choice(['int', 'str', 'node', 'node', 'intperm']), 'vorder': g.perm(n), 'seed': g.randrange(1 << 30)})
